@@ -93,6 +93,15 @@ def quantized_definition(ctx, rule):
       if c is not None and c[1] == '<' and c[0] == '0' and c[2] in ('%s.quantization_info.steps_per_quarter' % p, '%s.quantization_info.steps_per_second' % p):
         forms.add(c[2].split('.')[-1])
     ok = forms == {'steps_per_quarter', 'steps_per_second'}
+  # positively located: the decision reads the *presence* of the resolution (HasField / WhichOneof) and never compares its value
+  presence = [c for c in U.calls_in(q.node) if isinstance(c.func, ast.Attribute) and c.func.attr in ('HasField', 'WhichOneof')]
+  value_tests = [c for c in ast.walk(q.node) if isinstance(c, ast.Compare) and any(isinstance(x, ast.Attribute) and x.attr in ('steps_per_quarter', 'steps_per_second') for x in ast.walk(c))
+                 and any(isinstance(o, (ast.Lt, ast.LtE, ast.Gt, ast.GtE, ast.NotEq, ast.Eq)) for o in c.ops)]
+  if presence and not value_tests:
+    ctx.ob(rule, q, presence[0], False, 'is_quantized_sequence decides by %s, the presence of the resolution, and never looks at its value: an unquantized sequence whose steps_per_quarter / '
+           'steps_per_second was explicitly set to 0 is present-but-zero and is classified as quantized (and then rejected by apply_sustain_control_changes)' % norm_text(presence[0]),
+           construct='is_quantized_sequence = positive resolution', definite=True)
+    return
   ctx.ob(rule, q, rets[0] if rets else q.node, ok, 'quantized iff steps_per_quarter > 0 or steps_per_second > 0' if ok else
          'is_quantized_sequence is not "steps_per_quarter > 0 or steps_per_second > 0": sequences with an explicit zero resolution (or none) are classified differently',
          construct='is_quantized_sequence = positive resolution')
